@@ -2,11 +2,13 @@ import sys, json, glob, os
 from vf.registry import Registry
 from vf.verify import verify_contract
 reg = Registry()
-for f in sorted(glob.glob(os.path.join(os.path.dirname(__file__), "..", "contracts", sys.argv[1] + "*.py"))):
+for f in sorted(glob.glob(os.path.join(os.path.dirname(__file__), "..", "contracts", "C*.py"))):
     reg.load_file(f)
+import logging; logging.disable(logging.CRITICAL)
 only = sys.argv[2:] 
 for t, con in list(reg.contracts.items()) + [(c.target, c) for c in reg.lemmas]:
     if con.assumed: continue
+    if not con.module.__name__.startswith("contracts." + sys.argv[1]): continue
     if only and not any(o in t for o in only): continue
     r = verify_contract(reg, con)
     print(f"== {t}: paths={r.paths} dead={r.dead_paths} secs={r.secs:.2f} canary={r.canary_ok}")
